@@ -245,8 +245,8 @@ def handle (memo : Memo) (line : String) : Memo × String :=
     match op with
     | "ser" =>
       match parseVal args with
-      | some (.j v, []) => (memo, "B " ++ hexStr (ser v))
-      | some (.tuple xs, []) => (memo, "B " ++ hexStr (ser (.arr xs)))
+      | some (.j v, []) => (memo, match serPy v with | some b => "B " ++ hexStr b | none => "E ArgError")
+      | some (.tuple xs, []) => (memo, match serPy (.arr xs) with | some b => "B " ++ hexStr b | none => "E ArgError")
       | some (_, []) => (memo, "E ArgError")
       | _ => (memo, "X bad-args")
     | "parse" =>
